@@ -40,7 +40,7 @@ def cmdSkip : Cmd → List Nat → Nat
 
 /-- conditions on the numbers of a command, on the track it is applied to: every written number
 is an `int` (`NumRange`), a length is at least 1, a frame count at least 0, and `&` finds its
-note.  (Since fixes a16b488 / a22a11c no "does not overflow" condition is left: `o`, `<`, `>`,
+note.  (Since fixes 299434d / bc95701 no "does not overflow" condition is left: `o`, `<`, `>`,
 dotted durations and the note number wrap or are computed in a wider type.) -/
 def CmdNums (t : Track) : Cmd → Prop
   | .note _ _ d => DurNums d
